@@ -10,14 +10,18 @@ package c01
 import (
 	"context"
 	"fmt"
+	"os"
+	"reflect"
 	"runtime"
 	"sort"
 	"strconv"
 	"strings"
 	"time"
+	"unsafe"
 
 	"github.com/deckhouse/deckhouse/pkg/log"
 	"k8s.io/apimachinery/pkg/apis/meta/v1/unstructured"
+	"k8s.io/client-go/tools/cache"
 
 	kubeeventsmanager "github.com/flant/shell-operator/pkg/kube_events_manager"
 	kemtypes "github.com/flant/shell-operator/pkg/kube_events_manager/types"
@@ -32,15 +36,24 @@ type Change struct {
 	Oid  int    `json:"oid"`
 	Kind string `json:"kind"` // Added Modified Deleted
 	Proj int    `json:"proj"`
+	// Form: how client-go hands the change to the handler.  "" = the object itself
+	// ( *unstructured.Unstructured ); "tombstone" (Deleted only) = the
+	// cache.DeletedFinalStateUnknown{Key, Obj} BY VALUE that a relist after a broken watch
+	// produces for an object the new list no longer has (model C01_Forms.v)
+	Form string `json:"form,omitempty"`
 }
+
+const formTombstone = "tombstone"
 type Op struct {
-	Kind string `json:"kind"` // StartW StepW StartS StepS E | history steps (hist.go): set del ns_set ns_del
+	Kind string `json:"kind"` // StartW StepW StartS StepS E | history steps (hist.go): set del ns_set ns_del outage
 	R    int    `json:"r,omitempty"`
 	// history steps only
 	Ns    int  `json:"ns,omitempty"`
 	Name  int  `json:"name,omitempty"`
 	Proj  int  `json:"proj,omitempty"`
 	Label bool `json:"label,omitempty"`
+	// outage only (relist.go): the object operations (set / del) that happen while the watch is down
+	Inner []Op `json:"inner,omitempty"`
 }
 type Input struct {
 	Types   []string `json:"types,omitempty"` // event types the binding listens to
@@ -93,6 +106,62 @@ func object(c Change) *unstructured.Unstructured {
 		"metadata": map[string]interface{}{"name": "o" + strconv.Itoa(c.Oid), "namespace": "default"},
 		"data":     map[string]interface{}{"v": strconv.Itoa(c.Proj)},
 	}}
+}
+
+// tombstoneOf lets client-go itself make what OnDelete receives for an object that a relist no
+// longer lists: the object sits in the informer's store (the DeltaFIFO's KnownObjects, configured
+// as sharedIndexInformer.Run configures it), the new list is empty, DeltaFIFO.Replace queues the
+// Deleted delta and Pop hands it over as processDeltas gets it (a DeletedFinalStateUnknown value).
+func tombstoneOf(obj *unstructured.Unstructured) (interface{}, error) {
+	store := cache.NewStore(cache.DeletionHandlingMetaNamespaceKeyFunc)
+	if err := store.Add(obj); err != nil {
+		return nil, err
+	}
+	fifo := cache.NewDeltaFIFOWithOptions(cache.DeltaFIFOOptions{KnownObjects: store, EmitDeltaTypeReplaced: true})
+	if err := fifo.Replace([]interface{}{}, "2"); err != nil {
+		return nil, err
+	}
+	if len(fifo.ListKeys()) != 1 {
+		return nil, fmt.Errorf("DeltaFIFO.Replace queued %d keys for one missing object", len(fifo.ListKeys()))
+	}
+	var arg interface{}
+	_, err := fifo.Pop(func(x interface{}, _ bool) error {
+		deltas, ok := x.(cache.Deltas)
+		if !ok || len(deltas) != 1 || deltas[0].Type != cache.Deleted {
+			return fmt.Errorf("unexpected deltas for a missing object: %#v", x)
+		}
+		arg = deltas[0].Object
+		return nil
+	})
+	return arg, err
+}
+
+// handlerOf: the client-go handler interface of the wrapped resourceInformer (the wrapper's own
+// Handle takes objects only; its field is unexported, the informer's handler methods are not).
+func handlerOf(inf *kubeeventsmanager.VerifC01Informer) cache.ResourceEventHandler {
+	f := reflect.ValueOf(inf).Elem().FieldByName("ei")
+	h, _ := reflect.NewAt(f.Type(), unsafe.Pointer(f.UnsafeAddr())).Elem().Interface().(cache.ResourceEventHandler)
+	return h
+}
+
+// deliver one change to the informer's handlers as client-go's processorListener does
+func deliver(inf *kubeeventsmanager.VerifC01Informer, h cache.ResourceEventHandler, c Change) error {
+	if c.Form != formTombstone {
+		inf.Handle(watchType(c.Kind), object(c))
+		return nil
+	}
+	if c.Kind != "Deleted" {
+		return fmt.Errorf("client-go hands a tombstone to OnDelete only")
+	}
+	if h == nil {
+		return fmt.Errorf("the informer's handler methods are not reachable")
+	}
+	t, err := tombstoneOf(object(c))
+	if err != nil {
+		return err
+	}
+	h.OnDelete(t)
+	return nil
 }
 
 func pairOf(o kemtypes.ObjectAndFilterResult) Pair {
@@ -158,6 +227,7 @@ func Run(in Input) Obs {
 	mc.EventTypes = ets
 	mstor := metricstorage.NewMetricStorage(context.Background(), "c01_", true, log.NewNop())
 	inf := kubeeventsmanager.NewVerifC01Informer(mc, mstor)
+	hnd := handlerOf(inf)
 	ctl := verifpoint.NewController()
 	verifpoint.Install(ctl)
 	defer verifpoint.Install(nil)
@@ -185,7 +255,13 @@ func Run(in Input) Obs {
 		}
 		c := in.Changes[next]
 		next++
-		p := guard(func() string { return ctl.Go("W", func() { inf.Handle(watchType(c.Kind), object(c)) }) })
+		p := guard(func() string {
+			return ctl.Go("W", func() {
+				if err := deliver(inf, hnd, c); err != nil {
+					o.Note = "delivery: " + err.Error()
+				}
+			})
+		})
 		if p == "" {
 			o.Delivered++
 		} else {
@@ -298,6 +374,8 @@ func runStress(in Input) Obs {
 	}
 	mstor := metricstorage.NewMetricStorage(context.Background(), "c01s_", true, log.NewNop())
 	inf := kubeeventsmanager.NewVerifC01Informer(mc, mstor)
+	hnd := handlerOf(inf)
+	var dErr error
 	rng := core.NewRng(in.StressSeed)
 	spin := func(n int) {
 		for i := 0; i < n; i++ {
@@ -313,7 +391,9 @@ func runStress(in Input) Obs {
 	go func() {
 		for i, c := range in.Changes {
 			spin(wDelay[i])
-			inf.Handle(watchType(c.Kind), object(c))
+			if err := deliver(inf, hnd, c); err != nil {
+				dErr = err
+			}
 		}
 		done <- struct{}{}
 	}()
@@ -334,6 +414,9 @@ func runStress(in Input) Obs {
 		}
 	}
 	o.Delivered = len(in.Changes)
+	if dErr != nil {
+		o.Note = "delivery: " + dErr.Error()
+	}
 	for _, e := range inf.Events() {
 		ev := Ev{Oid: -1, Proj: -1}
 		if len(e.WatchEvents) > 0 {
@@ -363,6 +446,22 @@ func coqKind(k string) string {
 	return "Deleted"
 }
 func coqChange(c Change) string { return fmt.Sprintf("mkCh %d %s %d", c.Oid, coqKind(c.Kind), c.Proj) }
+
+// coqDelivery: the handler call with its argument's form (C01_Forms.delivery)
+func coqDelivery(c Change) string {
+	if c.Form == formTombstone {
+		return fmt.Sprintf("mkDl %s (ATomb %d %d %d)", coqKind(c.Kind), c.Oid, c.Oid, c.Proj)
+	}
+	return fmt.Sprintf("mkDl %s (AObj %d %d)", coqKind(c.Kind), c.Oid, c.Proj)
+}
+func hasTombstone(cs []Change) bool {
+	for _, c := range cs {
+		if c.Form == formTombstone {
+			return true
+		}
+	}
+	return false
+}
 func coqOp(o Op) string {
 	switch o.Kind {
 	case "StartS", "StepS":
@@ -427,15 +526,21 @@ func Render(in Input, obs *Obs, crash string) core.Case {
 	if in.Stress {
 		ctor = "CStress"
 	}
-	c.Coq = fmt.Sprintf(ctor+" (mkIn %s %s %s)\n (mkOb %s %s %s %s %d %d %d %s)",
-		core.CoqList(in.Types, coqKind), core.CoqList(in.Changes, coqChange), core.CoqList(in.Ops, coqOp),
+	// deliveries with a tombstone among them: the class with forms (C01_Forms); else as before
+	mk, chs := "mkIn", core.CoqList(in.Changes, coqChange)
+	tomb := hasTombstone(in.Changes)
+	if tomb {
+		ctor, mk, chs = ctor+"F", "mkFIn", core.CoqList(in.Changes, coqDelivery)
+	}
+	c.Coq = fmt.Sprintf(ctor+" ("+mk+" %s %s %s)\n (mkOb %s %s %s %s %d %d %d %s)",
+		core.CoqList(in.Types, coqKind), chs, core.CoqList(in.Ops, coqOp),
 		core.CoqList(o.Out, coqEv), views, core.CoqList(o.Cache, coqPair), core.CoqBool(o.Enabled), o.BufLen, o.OutBeforeE, o.Delivered,
 		core.CoqBool(crash != "" || o.Note != ""))
 	c.JSON = map[string]any{"obs": o, "crash": crash}
 	var kb strings.Builder
 	kb.WriteString(strings.Join(in.Types, ","))
 	for _, ch := range in.Changes {
-		kb.WriteString(coqChange(ch) + ";")
+		kb.WriteString(coqChange(ch) + ch.Form + ";")
 	}
 	kinds := map[string]bool{}
 	for _, op := range in.Ops {
@@ -445,13 +550,39 @@ func Render(in Input, obs *Obs, crash string) core.Case {
 	}
 	c.Key = kb.String()
 	c.Tags = append(c.Tags, fmt.Sprintf("changes:%02d", len(in.Changes)/3*3), fmt.Sprintf("types:%d", len(in.Types)))
+	dels, tombs := 0, 0
+	for _, ch := range in.Changes {
+		if ch.Kind == "Deleted" {
+			dels++
+			if ch.Form == formTombstone {
+				tombs++
+			}
+		}
+	}
+	listed := false
+	for _, t := range in.Types {
+		listed = listed || t == "Deleted"
+	}
+	switch {
+	case tombs > 0 && tombs < dels:
+		c.Tags = append(c.Tags, "delivery:Deleted-as-object-and-as-tombstone")
+	case tombs > 0:
+		c.Tags = append(c.Tags, "delivery:every-Deleted-as-tombstone")
+	case dels > 0:
+		c.Tags = append(c.Tags, "delivery:every-Deleted-as-object")
+	}
+	if tombs > 0 {
+		c.Tags = append(c.Tags, "class:informer-forms", fmt.Sprintf("tombstone:Deleted-listed:%v", listed))
+	}
 	c.Nontrivial = len(in.Changes) >= 2 && kinds["E"] && kinds["StartS"] && len(o.Out) >= 1
 	return c
 }
 
 // ---- generation ----
 
-func genChanges(r *core.Rng, n int) []Change {
+// genChanges: per-object histories; tombPct = chance (percent) that a Deleted is delivered as a
+// tombstone (a deletion found by a relist) instead of as the object.
+func genChanges(r *core.Rng, n int, tombPct int) []Change {
 	var cs []Change
 	state := map[int]int{} // oid -> proj (present)
 	for len(cs) < n {
@@ -460,10 +591,14 @@ func genChanges(r *core.Rng, n int) []Change {
 		switch {
 		case !present:
 			p := 1 + r.Intn(4)
-			cs = append(cs, Change{oid, "Added", p})
+			cs = append(cs, Change{Oid: oid, Kind: "Added", Proj: p})
 			state[oid] = p
 		case r.Chance(25):
-			cs = append(cs, Change{oid, "Deleted", cur})
+			ch := Change{Oid: oid, Kind: "Deleted", Proj: cur}
+			if tombPct > 0 && r.Chance(tombPct) {
+				ch.Form = formTombstone
+			}
+			cs = append(cs, ch)
 			delete(state, oid)
 		case r.Chance(20):
 			// re-delivery of the same state (resync): must stay silent
@@ -471,10 +606,10 @@ func genChanges(r *core.Rng, n int) []Change {
 			if r.Chance(40) {
 				k = "Added"
 			}
-			cs = append(cs, Change{oid, k, cur})
+			cs = append(cs, Change{Oid: oid, Kind: k, Proj: cur})
 		default:
 			p := 1 + r.Intn(4)
-			cs = append(cs, Change{oid, "Modified", p})
+			cs = append(cs, Change{Oid: oid, Kind: "Modified", Proj: p})
 			state[oid] = p
 		}
 	}
@@ -541,7 +676,8 @@ func w(n int) []Op {
 
 func Corpus() []core.In[Input] {
 	all := []string{"Added", "Modified", "Deleted"}
-	ch := []Change{{1, "Added", 1}, {1, "Modified", 2}, {2, "Added", 1}}
+	ch := []Change{{Oid: 1, Kind: "Added", Proj: 1}, {Oid: 1, Kind: "Modified", Proj: 2}, {Oid: 2, Kind: "Added", Proj: 1}}
+	tomb := func(oid, proj int) Change { return Change{Oid: oid, Kind: "Deleted", Proj: proj, Form: formTombstone} }
 	cat := func(xs ...[]Op) []Op {
 		var r []Op
 		for _, x := range xs {
@@ -559,6 +695,18 @@ func Corpus() []core.In[Input] {
 		{Input: Input{Types: all, Changes: ch, Ops: cat(w(1), s0, w(1), []Op{{Kind: "E"}}, w(1))}, Stream: "corpus"},
 		// R2 (known finding F23): another reader of the still-locked binding empties the buffer
 		{Input: Input{Types: all, Changes: ch, Ops: cat(w(1), s0, w(1), []Op{{Kind: "StartS", R: 1}, {Kind: "StepS", R: 1}, {Kind: "E"}}, w(1))}, Stream: "trigger-F23"},
+		// ---- the form of the handler's argument: a deletion found by a relist comes as a tombstone (by value) ----
+		// the smallest one after the unlock: the object of the Synchronization view is gone when the watch is back
+		{Input: Input{Types: all, Changes: []Change{{Oid: 1, Kind: "Added", Proj: 1}, tomb(1, 1)}, Ops: cat(w(1), s0, []Op{{Kind: "E"}}, w(1))}, Stream: "corpus-forms"},
+		// the tombstone arrives while the Synchronization is running: buffered, replayed after the unlock; then an ordinary delete
+		{Input: Input{Types: all, Changes: []Change{{Oid: 1, Kind: "Added", Proj: 1}, {Oid: 2, Kind: "Added", Proj: 1}, tomb(1, 1), {Oid: 2, Kind: "Deleted", Proj: 1}},
+			Ops: cat(w(2), s0, w(1), []Op{{Kind: "E"}}, w(1))}, Stream: "corpus-forms"},
+		// Deleted not listed: the tombstone fires nothing, the cache drops the object; its re-creation is an Added
+		{Input: Input{Types: []string{"Added", "Modified"}, Changes: []Change{{Oid: 1, Kind: "Added", Proj: 1}, tomb(1, 1), {Oid: 1, Kind: "Added", Proj: 1}},
+			Ops: cat(w(1), s0, []Op{{Kind: "E"}}, w(2), []Op{{Kind: "StartS", R: 1}, {Kind: "StepS", R: 1}})}, Stream: "corpus-forms"},
+		// a relist batch after the unlock: one object changed, one is new, one is gone (tombstone), parked at the mark against a reader
+		{Input: Input{Types: all, Changes: []Change{{Oid: 1, Kind: "Added", Proj: 1}, {Oid: 2, Kind: "Added", Proj: 1}, {Oid: 1, Kind: "Modified", Proj: 2}, {Oid: 3, Kind: "Added", Proj: 1}, tomb(2, 1)},
+			Ops: cat(w(2), s0, []Op{{Kind: "E"}}, w(2), []Op{{Kind: "StartW"}, {Kind: "StartS", R: 1}, {Kind: "StepW"}, {Kind: "StepS", R: 1}})}, Stream: "corpus-forms"},
 	}
 }
 
@@ -584,6 +732,16 @@ func opCorpus() []opsim.Scenario {
 }
 
 func Gen(r *core.Rng, tier string) ([]core.In[Input], bool) {
+	if os.Getenv("VERIF_C01_SOAK") == "relist" {
+		// development aid (VERIF_C01_SOAK=relist ./check C01): the outage class alone, for soak runs
+		ins := relistCorpus()
+		rr := r.Fork()
+		for i := 0; i < 200; i++ {
+			hin, hops := genHist(rr, 3+rr.Intn(8), false, 1+i%4/3)
+			ins = append(ins, core.In[Input]{Input: Input{Hist: &hin, Ops: hops}, Stream: "relist"})
+		}
+		return append(ins, relistExhaustive()...), false
+	}
 	ins := Corpus()
 	// monitor level: every interleaving of the namespace callback and the unlock, with and
 	// without objects already present in the namespace (trigger F24)
@@ -606,7 +764,7 @@ func Gen(r *core.Rng, tier string) ([]core.In[Input], bool) {
 		}
 		for i := 0; i < ns; i++ {
 			nc := 3 + r.Intn(6)
-			ins = append(ins, core.In[Input]{Input: Input{Types: allTypes[r.Intn(3)], Changes: genChanges(r, nc), Stress: true, StressSeed: int64(r.Next() >> 1)}, Stream: "stress"})
+			ins = append(ins, core.In[Input]{Input: Input{Types: allTypes[r.Intn(3)], Changes: genChanges(r, nc, 50*(i%2)), Stress: true, StressSeed: int64(r.Next() >> 1)}, Stream: "stress"})
 		}
 	}
 	// operator level: unlock only by the binding's own Synchronization
@@ -629,7 +787,12 @@ func Gen(r *core.Rng, tier string) ([]core.In[Input], bool) {
 	for i := 0; i < n; i++ {
 		nc := 2 + r.Intn(7)
 		foreign := i%10 == 9
-		in := Input{Types: allTypes[r.Intn(len(allTypes))], Changes: genChanges(r, nc), Ops: genOps(r, nc, foreign)}
+		// two schedules in three deliver half of the deletions as tombstones (found by a relist)
+		tombPct := 0
+		if i%3 != 0 {
+			tombPct = 50
+		}
+		in := Input{Types: allTypes[r.Intn(len(allTypes))], Changes: genChanges(r, nc, tombPct), Ops: genOps(r, nc, foreign)}
 		st := "random"
 		if foreign {
 			st = "trigger-F23"
@@ -649,7 +812,7 @@ func Gen(r *core.Rng, tier string) ([]core.In[Input], bool) {
 	}
 	for i := 0; i < nh; i++ {
 		brought := i%8 == 7
-		hin, hops := genHist(hr, 6+hr.Intn(14), brought)
+		hin, hops := genHist(hr, 6+hr.Intn(14), brought, 0)
 		st := "hist"
 		if brought {
 			st = "hist-brought-along"
@@ -670,8 +833,28 @@ func Gen(r *core.Rng, tier string) ([]core.In[Input], bool) {
 		}
 		hists = append(hists, core.In[Input]{Input: Input{Hist: &hin, Ops: hops}, Stream: st})
 	}
+	// the same across watch outages (relist.go): one outage mostly, two in a quarter of the cases
+	// (a reflector's back-off doubles with each failure: ~1.2 s, then ~2.4 s); shorter histories
+	hists = append(hists, relistCorpus()...)
+	nr := 14
+	switch tier {
+	case "thorough":
+		nr = 400
+	case "search":
+		nr = 60
+	}
+	rr := r.Fork()
+	for i := 0; i < nr; i++ {
+		outages := 1
+		if i%4 == 3 {
+			outages = 2
+		}
+		hin, hops := genHist(rr, 3+rr.Intn(8), false, outages)
+		hists = append(hists, core.In[Input]{Input: Input{Hist: &hin, Ops: hops}, Stream: "relist"})
+	}
 	if tier == "thorough" {
 		hists = append(hists, histExhaustive(4)...)
+		hists = append(hists, relistExhaustive()...)
 	}
 	every := len(rnd) / len(hists)
 	if every < 1 {
@@ -689,7 +872,7 @@ func Gen(r *core.Rng, tier string) ([]core.In[Input], bool) {
 }
 
 var Driver = core.Driver[Input, Obs]{
-	Spec: core.Spec{Property: "C01", Imports: []string{"Op_Model", "Op_Corr", "C01_Model", "C01_Spec", "C01_Monitor", "C01_Hist", "C01_HistSpec", "C01_Comp", "C01_CompSpec", "C01_Corr"}, Corr: "C01_Corr", Triggers: []string{"F23", "F24"}, ShrinkKey: "ops",
+	Spec: core.Spec{Property: "C01", Imports: []string{"Op_Model", "Op_Corr", "C01_Model", "C01_Spec", "C01_Monitor", "C01_Hist", "C01_HistSpec", "C01_Comp", "C01_CompSpec", "C01_Forms", "C01_FormsSpec", "C01_Relist", "C01_RelistSpec", "C01_Corr"}, Corr: "C01_Corr", Triggers: []string{"F23", "F24"}, ShrinkKey: "ops",
 		Rule: "a real resourceInformer (locked, not connected to a cluster) driven by the informer callback (per-object histories over 3 objects x 4 states with re-deliveries, deletes, re-creations), Synchronization reads (repeated), foreign readers and the unlock, interleaved deterministically at lock granularity through verifpoint marks; every subset family of event types; 10% of the schedules let a foreign reader read a locked binding (trigger F23); non-trivial = >=2 changes, a Synchronization read, the unlock and >=1 delivered event; distinct = distinct (types, changes, schedule); class hist: a real monitor with namespace.labelSelector (real namespace informer, fake cluster) after Start and the unlock follows histories of object set/delete and namespace create/relabel/delete over 3 namespaces x 3 names (start-up namespaces and late ones stop matching and match again; event-type subsets, jqFilter, nameSelector), the KubeEvents handed over are compared per object (client-go's DeltaFIFO fixes no other order) with C01_Hist and judged per object by C01_HistSpec.HP; one history in 8 lets namespaces bring objects along (trigger F24); every second history runs beside a companion binding of the same kind and names with static namespaces (its monitor created before or after, same or different debug name; its informers share the first binding's shared informers of the factory store), whose events are compared with C01_Comp and judged by C01_CompSpec.CP; non-trivial there = >=1 namespace operation, >=2 object changes, >=1 event"},
 	Gen: Gen, Run: Run, Render: Render, PerShard: 400, Workers: 8, CaseTimout: 30 * time.Second,
 }
